@@ -9,6 +9,7 @@ import (
 	"strings"
 	"sync"
 	"testing"
+	"time"
 
 	leveldbstorage "github.com/spikeekips/mitum/storage/leveldb"
 	leveldbutil "github.com/syndtr/goleveldb/leveldb/util"
@@ -45,17 +46,28 @@ type kv struct {
 
 // what is visible through prefix p within stripped-key range [start,limit)
 func (m model) visible(p []byte, start, limit []byte, asc bool) []kv {
+	return m.visibleIn(m.sortedKeys(), p, start, limit, asc)
+}
+
+// same, over an already sorted snapshot ks of the model's keys (keys under one
+// prefix are contiguous in it)
+func (m model) visibleIn(ks []string, p []byte, start, limit []byte, asc bool) []kv {
 	var out []kv
-	for _, fk := range m.sortedKeys() {
+	from := string(p)
+	if start != nil {
+		from += string(start)
+	}
+	for i := sort.SearchStrings(ks, from); i < len(ks); i++ {
+		fk := ks[i]
 		if !strings.HasPrefix(fk, string(p)) {
-			continue
+			break
 		}
 		k := []byte(fk[len(p):])
 		if start != nil && bytes.Compare(k, start) < 0 {
 			continue
 		}
 		if limit != nil && bytes.Compare(k, limit) >= 0 {
-			continue
+			break
 		}
 		out = append(out, kv{K: k, V: m[fk]})
 	}
@@ -114,6 +126,11 @@ type script struct {
 	pbufOrig []byte
 	poff     [][2]int // offset, length of handle i's prefix in pbuf
 	failed   bool
+	// large-population / reused-instance scripts (big_test.go)
+	big           bool
+	cur           int // handle the current op (or view check) goes through
+	bigNontrivial bool
+	hist          []hhist // per handle instance: what it has lived through
 }
 
 func q(b []byte) string { return fmt.Sprintf("%q", b) }
@@ -123,12 +140,23 @@ func (s *script) witness() map[string]any {
 	if len(ops) > 60 {
 		ops = ops[len(ops)-60:]
 	}
-	return map[string]any{"script": s.idx, "ops_so_far": ops}
+	w := map[string]any{"script": s.idx, "ops_so_far": ops}
+	if s.big {
+		w["big"] = true
+		w["handles"] = qs(s.hp)
+		w["instance_history"] = s.hist
+	}
+	return w
 }
 
 func (s *script) violation(sig, what string) {
 	s.failed = true
-	s.r.Violation(sig, fmt.Sprintf("script %d op #%d %+v: %s", s.idx, len(s.ops), s.ops[len(s.ops)-1], what), s.witness())
+	name := "script"
+	if s.big {
+		sig += s.bigSuffix()
+		name = "big-script"
+	}
+	s.r.Violation(sig, fmt.Sprintf("%s %d op #%d %+v: %s", name, s.idx, len(s.ops), s.ops[len(s.ops)-1], what), s.witness())
 }
 
 // compare the real storage with the model; p is the prefix the op went through
@@ -223,18 +251,48 @@ func randVal(rng interface{ Intn(int) int }) []byte {
 func TestC25(t *testing.T) {
 	r := vlib.Start(t, "C25", vlib.LevelExploration)
 	defer r.Finish()
-	r.SetRule("case = one operation of a script; a script = fresh in-memory leveldb Storage shared by 4-7 PrefixStorage handles over look-alike prefixes (ab, abc, ab\\x00, ab\\xff, a, \\xff\\xff, \\xff, real two-byte labels), seeded with keys over alphabet {00,a,b,c,ff,01,02,06,07} through the handles and raw neighbour keys, then 50 PRNG ops (get/exists/put/delete/iter with ranges both directions and early stop/batch/batchfunc/Remove/RemoveByPrefix/BatchRemove limit 1..10/raw put/Close+reuse); after every op the full storage is compared with a map of full keys; distinct = hash of the script's (op,prefix,argument) sequence; non-trivial = script had ops executed while keys outside the op's prefix were present")
+	r.SetRule("case = one operation of a script; a script = fresh in-memory leveldb Storage shared by 4-7 PrefixStorage handles over look-alike prefixes (ab, abc, ab\\x00, ab\\xff, a, \\xff\\xff, \\xff, real two-byte labels), seeded with keys over alphabet {00,a,b,c,ff,01,02,06,07} through the handles and raw neighbour keys, then 50 PRNG ops (get/exists/put/delete/iter with ranges both directions and early stop/batch/batchfunc/Remove/RemoveByPrefix/BatchRemove limit 1..10/raw put/Close+reuse); after every op the full storage is compared with a map of full keys; distinct = hash of the script's (op,prefix,argument) sequence; non-trivial = script had ops executed while keys outside the op's prefix were present. SECOND WORKLOAD (ops big-*): scripts on a fresh Storage with 3-5 handles (two of the nested family) whose PrefixStorage instances are never re-created: per cycle one handle is populated (Put / one Batch / chunked Batches / BatchFunc sizes 1..1000, some overwrites) to exactly n keys of one key band, n cycling through 1 and L-1,L,L+1,2L+1 for L in {128,256,333 (the repo's BatchRemove limit),512,1000} and 3000 (thorough also 5000); read (Iter nil-range both directions, Start-only, Limit-only, both bounds from existing keys / band bounds / bounds of the last removed population, early stop 1 and 332..334; Get+Exists of up to 600 present keys, of keys of the last removed population and of absent keys); the whole population removed (optionally after a BatchRemove of a sub-range longer than one batch) by PrefixStorage.Remove / RemoveByPrefix / BatchRemove over the prefix with limits 50..10000 incl. 332,333,334,n-1,n,n+1,n/2 / one Batch of deletes; the SAME instance populated again with keys below, above and between the removed ones; read again; sometimes removed again; between the steps the other handles of the storage get the same kind of ops. Same oracle after every op (full storage vs map; every handle's Iter(nil) vs map). Signatures of failures seen through an instance get :reused-handle when its prefix's whole population had been removed before, and :population>batch-limit when it ever held more than 333 keys")
 	r.Assume("PrefixStorage.Get/Exists/Put/Delete with an empty key, and Iter with an empty non-nil range bound, may be rejected with an error; a rejection must leave the storage unchanged and show no key")
-	r.Assume("BatchRemove limit is 1..10 (limit 0 is meaningless; the repo uses 333)")
+	r.Assume("BatchRemove limit is 1..10 in the small scripts (limit 0 is meaningless; the repo uses 333) and 50..10000 in the large-population scripts")
+	r.Assume("the storage layer's internal batch limit is taken as 333 (literal in Storage.Clean -> BatchRemove; no exported constant), other plausible limits 128/256/512/1000 are covered by population sizes around them")
 	r.Assume("a PrefixStorage that was Closed must not show or change any key (the repo's TestClose expects ErrClosed); what it may not do under the statement is show or change keys outside its prefix")
 
 	n := r.N(4000, 60000)
 	opsPer := 50
+	t0 := time.Now()
 	vlib.Parallel(n, 16, func(i int) {
 		runScript(r, i, opsPer)
 	})
 	if r.Counter("ops_with_foreign_keys_present") == 0 {
 		r.Inconclusive("no operation ran while keys outside its prefix existed")
+	}
+
+	// second workload (big_test.go): populations beyond the storage layer's
+	// internal batch sizes on PrefixStorage instances reused over a long history
+	t1 := time.Now()
+	sizes := bigSizes(r.Thorough())
+	nbig := r.N(6*len(sizes), 40*len(sizes))
+	cycles := r.N(3, 4)
+	vlib.Parallel(nbig, 16, func(i int) {
+		runBigScript(r, i, sizes[len(sizes)-1-i%len(sizes)], cycles, sizes)
+	})
+	// informational only (cost of the two workloads); never part of a verdict
+	r.Set("wall_s_small_scripts", t1.Sub(t0).Seconds())
+	r.Set("wall_s_big_scripts", time.Since(t1).Seconds())
+	r.Set("big_population_sizes", sizes)
+	r.Set("big_assumed_internal_batch_limits", batchLimits)
+	bigMu.Lock()
+	r.Set("big_max_instance_reuse_depth", bigMaxDepth)
+	r.Set("big_max_ops_through_one_instance", bigMaxOps)
+	bigMu.Unlock()
+	for _, k := range []string{
+		"big_instance_Remove_of_population_over_batch_limit", "big_removals_on_reused_instance",
+		"big_repopulated_keys_below_last_removed", "big_repopulated_keys_above_last_removed",
+		"big_iter_limit-only", "big_iter_nil-range", "big_ops_with_foreign_keys_present",
+	} {
+		if r.Counter(k) == 0 {
+			r.Inconclusive("large-population workload never produced: " + k)
+		}
 	}
 }
 
@@ -378,10 +436,14 @@ func (s *script) after(op string) {
 		s.violation("handles:caller-prefix-buffer-modified-after:"+op, fmt.Sprintf("the buffer the handle prefixes were cut from changed at offset %d: was %x now %x", at, s.pbufOrig, s.pbuf))
 		return
 	}
+	ks := s.m.sortedKeys()
+	cur := s.cur
+	defer func() { s.cur = cur }()
 	for i, pst := range s.hs {
 		if s.closed[i] {
 			continue
 		}
+		s.cur = i
 		var got []kv
 		err := pst.Iter(nil, func(k, v []byte) (bool, error) {
 			got = append(got, kv{K: k, V: v})
@@ -391,17 +453,47 @@ func (s *script) after(op string) {
 			s.violation("handles:view-error-after:"+op, fmt.Sprintf("handle %q: %v", s.hp[i], err))
 			return
 		}
-		want := s.m.visible(s.hp[i], nil, nil, true)
-		ok := len(got) == len(want)
-		for j := 0; ok && j < len(got); j++ {
-			ok = bytes.Equal(got[j].K, want[j].K) && bytes.Equal(got[j].V, want[j].V)
-		}
-		if !ok {
-			s.violation("handles:view-differs-from-model-after:"+op, fmt.Sprintf("handle %q shows %s, model %s", s.hp[i], kvs(got), kvs(want)))
+		want := s.m.visibleIn(ks, s.hp[i], nil, nil, true)
+		if !sameKVs(got, want) {
+			s.violation("handles:view-differs-from-model-after:"+op, fmt.Sprintf("handle %q shows %s, model %s; %s", s.hp[i], kvs(got), kvs(want), diffKVs(got, want)))
 			return
+		}
+		if s.big && len(want) > s.hist[i].MaxPopulation {
+			s.hist[i].MaxPopulation = len(want)
 		}
 	}
 	s.r.Count("all_handle_views_checked", 1)
+}
+
+func sameKVs(got, want []kv) bool {
+	if len(got) != len(want) {
+		return false
+	}
+	for j := range got {
+		if !bytes.Equal(got[j].K, want[j].K) || !bytes.Equal(got[j].V, want[j].V) {
+			return false
+		}
+	}
+	return true
+}
+
+func diffKVs(got, want []kv) string {
+	i := 0
+	for i < len(got) && i < len(want) && bytes.Equal(got[i].K, want[i].K) && bytes.Equal(got[i].V, want[i].V) {
+		i++
+	}
+	d := fmt.Sprintf("got %d keys, model %d keys, first difference at #%d:", len(got), len(want), i)
+	if i < len(got) {
+		d += fmt.Sprintf(" got %q", got[i].K)
+	} else {
+		d += " got <end>"
+	}
+	if i < len(want) {
+		d += fmt.Sprintf(" model %q", want[i].K)
+	} else {
+		d += " model <end>"
+	}
+	return d
 }
 
 func firstDiffAt(a, b []byte) int {
@@ -662,36 +754,7 @@ func (s *script) step(rng interface{ Intn(int) int }) bool {
 			desc = "nil"
 		}
 		limit := 1 + rng.Intn(10)
-		s.rec("batchremove", nil, fmt.Sprintf("%s limit=%d", desc, limit))
-		var want []string
-		var mr *leveldbutil.Range
-		if rg != nil {
-			mr = &leveldbutil.Range{Start: bytes.Clone(rg.Start), Limit: bytes.Clone(rg.Limit)}
-			if rg.Start == nil {
-				mr.Start = nil
-			}
-			if rg.Limit == nil {
-				mr.Limit = nil
-			}
-		}
-		want = s.m.inRange(mr)
-		r.Guard("BatchRemove", s.witness(), func() {
-			removed, err := leveldbstorage.BatchRemove(s.st, rg, limit)
-			if err != nil {
-				s.violation("BatchRemove:error", err.Error())
-				return
-			}
-			for _, fk := range want {
-				delete(s.m, fk)
-			}
-			s.compare("BatchRemove", nil, true)
-			if !s.failed && removed != len(want) {
-				s.violation("BatchRemove:wrong-removed-count", fmt.Sprintf("returned %d, range held %d keys", removed, len(want)))
-			}
-			if len(want) > limit {
-				r.Count("batchremove_multi_round", 1)
-			}
-		})
+		s.doBatchRemove("batchremove", rg, limit, desc)
 	case x < 94: // raw put next to a prefix
 		k, v := s.neighbour(rng), randVal(rng)
 		if len(k) == 0 {
@@ -718,6 +781,45 @@ func (s *script) step(rng interface{ Intn(int) int }) bool {
 		r.Count("ops_with_foreign_keys_present", 1)
 	}
 	return foreign
+}
+
+// doBatchRemove runs BatchRemove(raw storage, rg, limit): exactly the model's
+// keys of the range are gone, nothing else, and the returned count is right.
+func (s *script) doBatchRemove(op string, rg *leveldbutil.Range, limit int, desc string) {
+	r := s.r
+	s.rec(op, nil, fmt.Sprintf("%s limit=%d", desc, limit))
+	var want []string
+	var mr *leveldbutil.Range
+	if rg != nil {
+		mr = &leveldbutil.Range{Start: bytes.Clone(rg.Start), Limit: bytes.Clone(rg.Limit)}
+		if rg.Start == nil {
+			mr.Start = nil
+		}
+		if rg.Limit == nil {
+			mr.Limit = nil
+		}
+	}
+	want = s.m.inRange(mr)
+	r.Guard("BatchRemove", s.witness(), func() {
+		removed, err := leveldbstorage.BatchRemove(s.st, rg, limit)
+		if err != nil {
+			s.violation("BatchRemove:error", err.Error())
+			return
+		}
+		for _, fk := range want {
+			delete(s.m, fk)
+		}
+		s.compare("BatchRemove", nil, true)
+		if !s.failed && removed != len(want) {
+			s.violation("BatchRemove:wrong-removed-count", fmt.Sprintf("returned %d, range held %d keys", removed, len(want)))
+		}
+		if len(want) > limit {
+			r.Count("batchremove_multi_round", 1)
+			if s.big {
+				r.Count("big_batchremove_multi_round", 1)
+			}
+		}
+	})
 }
 
 func qn(b []byte) string {
@@ -769,8 +871,7 @@ func (s *script) iterBound(rng interface{ Intn(int) int }, p []byte) []byte {
 }
 
 func (s *script) iterOp(rng interface{ Intn(int) int }, h int) {
-	r := s.r
-	pst, p := s.hs[h], s.hp[h]
+	p := s.hp[h]
 	var rg *leveldbutil.Range
 	var start, limit []byte
 	if rng.Intn(4) > 0 {
@@ -786,7 +887,19 @@ func (s *script) iterOp(rng interface{ Intn(int) int }, h int) {
 	if rg != nil {
 		arg = fmt.Sprintf("[%s,%s) asc=%v stop=%d", qn(start), qn(limit), asc, stop)
 	}
-	s.rec("iter", p, arg)
+	s.doIter("iter", h, rg, asc, stop, arg)
+}
+
+// doIter runs pst.Iter(rg, …, asc) through handle h, stopping after stop keys
+// when stop > 0, and compares what the callback saw with the model.
+func (s *script) doIter(op string, h int, rg *leveldbutil.Range, asc bool, stop int, arg string) {
+	r := s.r
+	pst, p := s.hs[h], s.hp[h]
+	var start, limit []byte
+	if rg != nil {
+		start, limit = rg.Start, rg.Limit
+	}
+	s.rec(op, p, arg)
 	emptyBound := rg != nil && ((start != nil && len(start) == 0) || (limit != nil && len(limit) == 0))
 
 	var got []kv
@@ -829,22 +942,21 @@ func (s *script) iterOp(rng interface{ Intn(int) int }, h int) {
 			return
 		}
 	}
-	ok := len(got) == len(want)
-	for i := 0; ok && i < len(got); i++ {
-		ok = bytes.Equal(got[i].K, want[i].K) && bytes.Equal(got[i].V, want[i].V)
-	}
-	if !ok {
+	if !sameKVs(got, want) {
 		kind := "wrong-keys-or-order"
 		if len(got) > len(want) {
 			kind = "keys-outside-range"
 		} else if len(got) < len(want) {
 			kind = "missing-keys"
 		}
-		s.violation("Iter:"+kind+fmt.Sprintf(":asc=%v", asc), fmt.Sprintf("got %s want %s", kvs(got), kvs(want)))
+		s.violation("Iter:"+kind+fmt.Sprintf(":asc=%v", asc), fmt.Sprintf("got %s want %s; %s", kvs(got), kvs(want), diffKVs(got, want)))
 		return
 	}
 	if len(got) > 0 {
 		r.Count("iter_keys_shown", len(got))
+	}
+	if s.big {
+		r.Count("big_iter_keys_shown", len(got))
 	}
 	s.compare("Iter", p, false)
 }
